@@ -72,6 +72,12 @@ def main(argv=None):
     except ValueError:
         seed = 1
     ctx = Ctx(prop=prop, tier=args.tier, seed=seed, procs=args.procs)
+    import phyclone
+
+    want = os.path.realpath(os.environ.get("PHYCLONE_REPO", "/repo"))
+    if not os.path.realpath(phyclone.__file__).startswith(want + os.sep):
+        print("HARNESS-ERROR property=%s phyclone imported from %s, expected under %s" % (prop, phyclone.__file__, want))
+        return 2
     t0 = time.time()
     try:
         mod = importlib.import_module("vp.checks.%s" % prop.lower())
